@@ -1,6 +1,7 @@
 package main
 
 import (
+	"strings"
 	"bufio"
 	"bytes"
 	"encoding/json"
@@ -160,9 +161,15 @@ func genSTreeOn(r *rand.Rand, gp *GenParams, names []string, rooted bool, lenMod
 }
 
 func tipNamesN(prefix string, n int) []string {
+	// names come in pairs that differ only by the case of a letter (t1, T1, t2, T2, ...): the order of the tips in
+	// the bitsets, and everything keyed by it across trees, must not confuse them
 	names := make([]string, n)
 	for i := range names {
-		names[i] = fmt.Sprintf("%s%d", prefix, i+1)
+		p := prefix
+		if i%2 == 1 {
+			p = strings.ToUpper(prefix)
+		}
+		names[i] = fmt.Sprintf("%s%d", p, i/2+1)
 	}
 	return names
 }
